@@ -499,7 +499,9 @@ pub fn emit_link(a: &Args, out: &mut Out) {
         run += 1;
         let progs = gen_linkset(&mut rng, a.thorough());
         let all_dbg = a.get_u64("alldbg", 0) == 1 || chance(&mut rng, 65);
-        let set: Vec<(String, bool)> = progs.iter().map(|p| { let text = text_of(p, &mut rng); let dbg = all_dbg || chance(&mut rng, 50); (text, dbg) }).collect();
+        let mut set: Vec<(String, bool)> = progs.iter().map(|p| { let text = text_of(p, &mut rng); let dbg = all_dbg || chance(&mut rng, 50); (text, dbg) }).collect();
+        // an empty source file (no statement at all, assembled with debug symbols: an empty source text) anywhere in the set
+        if chance(&mut rng, 12) { let at = rng.random_range(0..=set.len()); set.insert(at, (pick(&mut rng, &["", "\n", "; nothing\n"]).to_string(), true)); }
         if link_set_record(&mut rng, run, &set, out) { made += 1; }
     }
 }
